@@ -4,6 +4,7 @@ from props.base import PropBase
 
 class C17(PropBase):
     id = "C17"
+    corr_fields = ['reg']
     lean_modules = ["SqModel.Props.C17"]
     extractors = ["country"]
     rule = ("all 16,777,216 addresses: row.reg of a row created for the address (Plane::from_downlink), run-length encoded, "
